@@ -276,7 +276,8 @@ if (job.module) {
 const props = job.props || ['C03', 'C11', 'C12'];
 const optionSets = job.options || [{}];
 
-const parserB = job.specB ? rt.buildParserFromRuntype(build(job.specB), 'T', false) : null;
+let parserB = job.specB ? rt.buildParserFromRuntype(build(job.specB), 'T', false) : null;
+if (job.moduleB) { const modB = await import(job.moduleB); parserB = modB.parsers[job.parserB]; if (!parserB) throw new Error('parser B not found'); }
 function isParseFailure(e) { return e instanceof Error && typeof e.message === 'string' && e.message.startsWith('Failed to parse '); }
 
 function body(input) {
@@ -329,6 +330,11 @@ function body(input) {
         if (s1 !== s2) V('C12', `printErrors is not deterministic (${tag})`);
         if (parseThrew && isParseFailure(parseThrew)) { let again; try { parser.parse(input, opts); } catch (e) { if (e instanceof $S.NeedsRefinement || e instanceof $S.Unmodelled || e instanceof $S.Infeasible) throw e; again = e; } if (!again || again.message !== parseThrew.message) V('C12', `parse error message is not deterministic (${tag})`); }
       }
+    }
+    if ((props.includes('C08') || props.includes('C15')) && parserB && !opts.disallowExtraProperties) {
+      let vb;
+      try { vb = parserB.validate(input, opts); } catch (e) { if (e instanceof $S.NeedsRefinement || e instanceof $S.Unmodelled || e instanceof $S.Infeasible) throw e; vb = 'throws ' + String(e && e.message).slice(0, 80); }
+      if (vb !== v) V(props.includes('C08') ? 'C08' : 'C15', `the two validators disagree: ${v} vs ${vb}`);
     }
     if (props.includes('C13') && parserB) {
       const vb = parserB.validate(input, opts);
